@@ -286,3 +286,17 @@ def run(facts, rep, ctx):
             rep.ok(rule, key, '%s:%s' % (io.file, io.line), '(self.lower..self.upper).map(sa.get)')
         else:
             rep.bad(rule, key, '%s:%s' % (io.file, io.line), 'Interval::occ does not enumerate exactly lower..upper')
+
+
+_run_before_round2 = run
+
+
+def run(facts, rep, ctx):
+    """rules added after the second round of independent seeding (rules/round2.py)"""
+    _run_before_round2(facts, rep, ctx)
+    from . import round2
+    round2.lf2(facts, rep)
+    # the interval arithmetic rests on the sampled Occ table: its writer/reader agreement (rule SB-10 of C04) is part of this check
+    from . import c04
+    c04.run(facts, rep, ctx)
+
